@@ -30,5 +30,13 @@ Calc == {T("diff", <<TFn("f", <<x>>), x>>, "", 1, 0), T("diff", <<TFn("f", <<B("
 \* shared subexpressions: the same object in several places
 Shared == {TOp("add", <<U("sin", s), U("cos", s), s>>) : s \in {B("add", x, y), B("pow", x, y), U("exp", B("mul", x, y))}}
           \cup {TOp("mul", <<U("f1", s), B("pow", s, TInt(2))>>) : s \in {B("add", x, TInt(1))}} \cup {B("pow", U("sin", B("add", x, y)), U("sin", B("add", x, y)))}
-Pool == Nums \cup Atoms \cup Arith \cup Funs \cup Rel \cup Logic \cup Sets \cup Calc \cup Shared
+\* several distinct inexact numbers in one expression (their parts are temporaries while an archive is written)
+CD(a, b, c, d) == TCDbl(TDbl(1, a, b), TDbl(1, c, d))
+CDs == <<CD(1, 0, 5, -1), CD(3, 0, 9, -1), CD(5, 0, 13, -1), CD(7, 0, 17, -1), TCDbl(TDbl(1, 3, -1), TDbl(-1, 1, 1)), TCDbl(TDbl(-1, 1, -2), TDbl(1, 3, -2))>>
+Inexact == {TFn("f", <<CDs[1], CDs[2]>>), TFn("g", <<CDs[5], x, CDs[6], TDbl(1, 5, -2)>>), TOp("finiteset", <<CDs[1], CDs[2], CDs[3]>>),
+            TOp("add", <<B("mul", CDs[1], x), B("mul", CDs[2], y), TOp("mul", <<CDs[3], x, y>>), CDs[4]>>),
+            TOp("add", <<B("mul", TDbl(1, 3, -1), x), B("mul", TDbl(1, 5, -1), y), TDbl(1, 7, -1)>>),
+            TOp("mul", <<B("pow", x, CDs[5]), B("pow", y, CDs[6])>>), TFn("h", <<CDs[1], CDs[2], CDs[3], CDs[4], CDs[5], CDs[6]>>),
+            B("add", B("mul", CDs[5], x), TOp("add", <<CDs[6], y>>)), TFn("f", <<CDs[3], CDs[3]>>)}
+Pool == Inexact \cup Nums \cup Atoms \cup Arith \cup Funs \cup Rel \cup Logic \cup Sets \cup Calc \cup Shared
 =============================================================================
